@@ -12,17 +12,17 @@ WORK = run.WORK
 LIFE = {
     "C01": dict(models=["base_foreign", "restart"], tmodels=["t_restart3", "overlap"], fams=["other", "base", "amtless", "twohash"],
                 crashes=(0, 1), wf=0, rf=0, extra=["class"]),
-    "C02": dict(extra=["wait_timeout"], focus=["Overlap", "Live"], models=["restart", "faults"], tmodels=["t_restart3", "t_faults2", "overlap"], fams=["base", "overlap", "amtless", "replay"],
+    "C02": dict(extra=["wait_timeout", "slow_decision"], focus=["Overlap", "Live"], models=["restart", "faults"], tmodels=["t_restart3", "t_faults2", "overlap"], fams=["base", "overlap", "amtless", "replay"],
                 crashes=(0, 1, 1), wf=1, rf=0, trf=1),
     "C03": dict(models=["base_conf", "base_amtless", "base_zero", "restart"], tmodels=["t_restart3", "base_tot"], fams=["base", "amtless", "overlap", "other"],
                 crashes=(0, 1), wf=0, rf=0, extra=["class"]),
     "C04": dict(models=["base_exp"], tmodels=["base_conf", "overlap"], fams=["base", "overlap"], crashes=(0,), wf=0, rf=0, heights=True),
     "C05": dict(focus=["Overlap", "Live"], models=["overlap", "overlapc", "restart"], tmodels=["overlap3", "t_overlap2", "t_restart3"], fams=["overlap", "overlap3", "base"],
-                crashes=(0, 1, 1), wf=0, rf=0),
+                crashes=(0, 1, 1), wf=0, rf=0, extra=["e2e_lostreply"]),
     "C06": dict(live=["live"], models=["base_conf", "faults"], tmodels=["base_exp", "base_tot", "t_faults2"], fams=["base", "amtless", "other", "overlap", "twohash"],
-                crashes=(0,), wf=1, rf=1, extra=["garbage", "class-raw", "e2e_burst"]),
+                crashes=(0,), wf=1, rf=1, extra=["garbage", "class-raw", "e2e_burst", "slow_decision"]),
     "C07": dict(models=["base_conf", "base_exp", "base_tot", "base_amtless"], tmodels=["overlap"], fams=["base", "amtless"],
-                crashes=(0,), wf=0, rf=0),
+                crashes=(0,), wf=0, rf=0, extra=["slow_decision"]),
     "C08": dict(extra=["wait_timeout"], focus=["Overlap", "Live"], models=["overlap", "faults", "restart"], tmodels=["t_overlap2", "t_faults2"], fams=["overlap", "base"],
                 crashes=(0, 1), wf=1, rf=0),
     "C09": dict(models=["wedge", "faults"], tmodels=["t_faults2", "restart"], fams=["base", "overlap"], crashes=(0, 1, 1), wf=1, rf=0, probes=3),
@@ -239,6 +239,10 @@ def build_jobs(pid, tier, seed, workdir):
         dj = scen.poll_window_jobs(start_run=runno)
         jobs += dj; runno += len(dj)
         sched_stats["directed height-poll-in-flight schedules (real BlockWatcher)"] = len(dj)
+    if "slow_decision" in ex:
+        dj = scen.slow_decision_jobs(start_run=runno)
+        jobs += dj; runno += len(dj)
+        sched_stats["directed long-undecided-payment schedules"] = len(dj)
     if "wait_timeout" in ex:
         dj = scen.wait_timeout_jobs(start_run=runno)
         jobs += dj; runno += len(dj)
